@@ -62,6 +62,42 @@ PROPS["C16"] = {
     "rule": "Same history generator as C09; per history every failing write index k (exhaustive) x acceptance length {0, random proper prefix, all}.",
     "trusted": ["compress/flate, snappy determinism (fault-free and faulty runs compress identically)"],
 }
+PROPS["C12"] = {
+    "lean_modules": ["AvroModel.Props.C12"],
+    "required_theorems": ["discipline_no_race", "lockOK_preserved", "inv_preserved", "disciplined_state_no_race",
+                          "sections_isolated", "lockfree_steps_commute", "section_step_delays", "section_step_advances", "unlock_never_faults", "all_guarded", "guarded_rows", "all_guarded_rows",
+                          "guarded_programs_checked", "library_no_race", "codecs_immutable", "per_call_state_not_shared",
+                          "registry_confluent", "registry_lookup_insert", "registry_inserts_commute"],
+    "harness": ["C12"],
+    "race": True,
+    "level_text": "PARTIAL BY NATURE (the Go scheduler and memory model are not modelled). Proved in Lean: (1) in an interleaving "
+                  "semantics of threads x RW-mutexes x plain shared variables, every execution of programs that respect a lock "
+                  "discipline (writes under the variable's mutex held exclusively, reads under it in any mode, unguarded variables "
+                  "never written, well-bracketed locking) is free of data races - with the two preservation lemmas (steps keep the "
+                  "mutex state consistent; checked programs stay checked), isolation of critical sections on the same mutex, lock-free steps of disciplined threads are both-movers "
+                  "(they commute with adjacent steps of other threads to the same state, so a critical section can be gathered into "
+                  "one uninterrupted block; the full reduction theorem is not proved) and unlock-never-faults; (2) the discipline predicate Guarded evaluates to true (kernel `decide`) on the table of "
+                  "every syntactic access to every package-level variable of avro, avro/time, avro/null with the mutexes held there, "
+                  "REGENERATED from the Go sources by go/ast on every run (removing or narrowing a lock breaks theorem all_guarded); "
+                  "(3) no Codec method assigns through its receiver or writes package state; per-call state types are never stored in "
+                  "package-level variables; registry look-ups are unaffected by registrations of other keys. Not modelled: the Go "
+                  "memory model below lock acquire/release, sync.Pool internals (atomic steps), the scheduler, pointer aliasing, the "
+                  "call graph. Searched: a -race build of the harness runs N goroutines x random mixes of the operations the "
+                  "property lists (codec building, Register/RegisterSchema of private types, shared-codec decode/encode, Encoder + "
+                  "ReadFile, banks closed on other goroutines, timestamp parsing with 1681 zone offsets) under several GOMAXPROCS; "
+                  "a race report or a concurrent-vs-alone result mismatch is a failing input.",
+    "level_note": "PARTIAL: proved = lock discipline => race freedom in the model + discipline holds for the regenerated facts + codec "
+                  "immutability; not modelled = Go memory model, sync.Pool internals, scheduler; searched = race-detector runs. "
+                  "Trusted: Lean kernel; factgen's syntactic extraction (go/ast, no alias analysis); the Go race detector.",
+    "rule": "One PRNG: cases (mix seed goroutines opsPerGoroutine gomaxprocs) with goroutines in {2,4,8,16,32}, GOMAXPROCS cycling "
+            "through {1,2,4,8,16}; per goroutine a seeded sequence over 10 kinds of operation; plus one (facts) case evaluating the "
+            "discipline on the regenerated table and one (sample) case.",
+    "trusted": ["harness/cmd/factgen: syntactic (go/ast) extraction of package-level accesses and held mutexes; no alias or call-graph analysis",
+                "the Go race detector (happens-before detector of the real runtime) as search tool",
+                "result equivalence is judged by the harness itself (concurrent results vs the same operations run alone, same process)"],
+    "assumptions": ["user code does not write the library's exported package-level variables",
+                    "a fact row is one access under its syntactic lock set; thread programs are arbitrary sequences of rows"],
+}
 
 PROPS["C18"] = {
     "lean_modules": ["AvroModel.Props.C18"],
@@ -178,6 +214,40 @@ PROPS["C10"] = {
                 "reflect read-only access to the unexported fields ReadBuf.rb, ResourceBank.sData/types used by the harness to observe capacities and bank identity"],
     "assumptions": ["ownership discipline of the caller: a bank is used and closed only between the pool handing it out and its Close; no writes through dead handles",
                     "the growth policy of Alloc (max(16, 2*cap)) is a parameter: theorems hold for every capacity above the old one"],
+}
+
+PROPS["C13"] = {
+    "lean_modules": ["AvroModel.Props.C13"],
+    "required_theorems": ["write_valid", "write_valid_built", "write_then_read", "null_second_selector", "general_union_write_panics", "timeLong_units"],
+    "harness": [("WR13", "C13")],
+    "level_text": "Proof: for every codec the model of build.go constructs for a caller-supplied schema, every Go value and every budget, the bytes "
+                  "the model of Codec.Write produces are exactly the specification's encoding (canonical plan) of the datum the value denotes "
+                  "(write_valid: null first or second, every numeric width, logical types, wrappers, nested records/arrays/maps), and reading them "
+                  "back delivers that datum's value with nothing left over (write_then_read = write correctness composed with the read theorem of "
+                  "C03). Tie: generated caller schemas + covering Go types + in-range values through the real Schema.Codec/Write/Read; the written "
+                  "bytes are decoded by the Lean reference decoder under the caller's schema alone and compared with toAvro of the value; the "
+                  "read-back value is compared with ofAvro of the datum; model bytes must equal implementation bytes (map order taken from the output).",
+    "level_note": "Trusted: Lean kernel; Wire.lean spec; differential tie; time formatting/parsing enter through Env (verified in C18); general unions have no writer (proved fact, outside the quantifier).",
+    "rule": "Random caller schemas (nullable unions with null first/second, int/long/float/double vs Go int16/32/64/int/float32/float64, fixed, nested "
+            "records, arrays, maps, date / timestamp-millis / timestamp-micros / plain-long / string time fields, null.* wrappers), covering "
+            "struct types, values within the schema type's range incl. boundaries, NaN payloads, nil/empty collections.",
+    "trusted": CODEC_TRUST,
+}
+PROPS["C02"] = {
+    "lean_modules": ["AvroModel.Props.C02"],
+    "required_theorems": ["record_valid", "null_branch_iff", "omits_cases", "null_clause_full_false", "null_clause_partial", "container_frames"],
+    "harness": [("WR2", "C02")],
+    "level_text": "Proof: every record the encoder buffers is the specification's encoding of the datum its value denotes under the schema "
+                  "(record_valid), the null branch is written exactly when Omit holds and Omit is characterised in value terms (null_branch_iff, "
+                  "omits_cases), the container is header ++ exact frames (C09.refines). The full null clause is false behind a pointer to an invalid "
+                  "wrapper (null_clause_full_false, known finding D27); null_clause_partial covers everything else. Tie: random Go types of the C01 "
+                  "domain with the schema the library itself generates; bytes judged by the Lean reference decoder under that schema alone, datum "
+                  "compared with the specification's reading (specNull) of the value, read-back compared.",
+    "level_note": "Trusted: Lean kernel; Wire.lean spec; differential tie. File-level framing is judged in C09 (spec header reader) and C01 (end to end).",
+    "rule": "Random struct types (bool, ints, floats, string, []byte, time.Time, null.*, slices, string-keyed maps, pointers at any depth, nested "
+            "structs, json name / omitempty tags) with type-directed random values: nil/empty collections, nil pointers at every level, invalid "
+            "wrappers, zero omitempty fields, NaN/Inf/-0, non-UTF-8 strings.",
+    "trusted": CODEC_TRUST,
 }
 
 NOT_APPLICABLE = {}
